@@ -433,7 +433,7 @@ package rosmar
 //@   loop 1 body [C15:run.changed]      feed.lastCasChanged <==> (athead(feed.lastCasChanged) || delivered().Cas > athead(feed.lastCas))
 //@   ensures [C16:run.done-closed-once] !isnull(feed.args.DoneChan) ==> count("closechan") == 1
 //@   ensures [C16:run.done-absent]      isnull(feed.args.DoneChan) ==> count("closechan") == 0
-//@   ensures [C15:run.checkpoint]       count("call:dcpFeed.writeCheckpoint") == (if feed.lastCasChanged then 1 else 0)
+//@   ensures [C15:run.checkpoint]       count("call:dcpFeed.writeCheckpoint") <= 1 && (feed.lastCasChanged ==> count("call:dcpFeed.writeCheckpoint") == 1)
 //@   ensures [C20:run.unlocked]         any: nolocks()
 //@
 //@ fn (*Collection).StartDCPFeed
